@@ -31,7 +31,38 @@ def plan(tier, seed):
     n = 8
     for s in range(n):
         jobs.append({"variant": "c" if s % 2 else "py", "part": "matrix", "shard": s, "nshards": n, "params": {}})
+    if tier == "thorough":
+        for s in range(16):
+            jobs.append({"variant": "c" if s % 2 else "py", "part": "allports", "shard": s, "nshards": 16, "params": {}})
     return jobs
+
+
+def run_allports(ctx):
+    """Thorough: EVERY port 0..65535 (and the first out-of-range values) x every scheme through URL text, build() and with_port()."""
+    from yarl import URL
+
+    for port in range(0, 65536 + 40):
+        if not ctx.mine(port):
+            continue
+        for scheme in SCHEMES:
+            pre = (scheme + ":" if scheme else "") + "//u:p@example.com"
+            cls = "default" if DEFAULT.get(scheme) == port else ("zero" if port == 0 else ("max" if port == 65535 else ("oor" if port > 65535 else "n")))
+            s = f"{pre}:{port}/p"
+            u = guarded(URL, s)
+            b = guarded(lambda: URL.build(scheme=scheme, host="example.com", port=port, path="/p"))
+            w = guarded(URL(pre + "/p").with_port, port)
+            if port > 65535:
+                for route, r in (("text", u), ("build", b), ("with_port", w)):
+                    expect_reject(ctx, route, {"route": route, "scheme": scheme, "port": port}, r, {"ValueError"}, ("allports", route, scheme, cls))
+                continue
+            for route, r, exp in (("text", u, port), ("build", b, None), ("with_port", w, port)):
+                case = {"route": route, "scheme": scheme, "port": port}
+                if is_exc(r):
+                    ctx.ev(("allports", route, scheme, cls, "exc"))
+                    ctx.fail("valid_rejected", case, f"{route} raised {r!r}")
+                    continue
+                verify(ctx, "allports-" + route, case, r, scheme, _build_exp(r, scheme, port) if route == "build" else exp, "reg", ("allports", route, scheme, cls))
+    ctx.sample({"route": "text", "s": "wss://u:p@example.com:443/p"})
 
 
 def model(scheme, explicit):
@@ -98,6 +129,8 @@ def expect_reject(ctx, route, case, r, kinds, sig):
 def run(ctx):
     from yarl import URL
 
+    if ctx.part == "allports":
+        return run_allports(ctx)
     if ctx.part == "replay":
         ctx.params["only"] = ctx.params["replay"]["case"]
     i = 0
